@@ -135,6 +135,7 @@ package aggregation
 //@ func insertAti64
 //@   requires 0 <= idx && idx <= len(slice)
 //@   modifies slice[0:cap(slice)]
+//@   ensures fresh(ret) || ref(ret) == ref(slice)
 //@   ensures len(ret) == len(slice) + 1 && ret[idx] == ele
 //@   ensures forall k in [0, idx) :: ret[k] == old(slice[k])
 //@   ensures forall k in [idx + 1, len(ret)) :: ret[k] == old(slice[k - 1])
@@ -213,17 +214,20 @@ package aggregation
 //@      && (forall k: str :: in_dom(s.subKeyIdx, k) ==> 0 <= map_get(s.subKeyIdx, k) && map_get(s.subKeyIdx, k) < len(s.subKeys) && s.subKeys[map_get(s.subKeyIdx, k)] == k)
 //@      && (forall i in [0, len(s.subKeys)) :: in_dom(s.subKeyIdx, s.subKeys[i]) && map_get(s.subKeyIdx, s.subKeys[i]) == i)
 //@ pred wf_skrows_n(s, n) := s.matches != nil
-//@      && (forall k: str :: in_dom(s.matches, k) ==> map_get(s.matches, k) != nil && allocated(map_get(s.matches, k)) && len(map_get(s.matches, k).submatches) == n)
-//@      && (forall a: str :: forall b: str :: in_dom(s.matches, a) && in_dom(s.matches, b) && a != b ==> map_get(s.matches, a) != map_get(s.matches, b))
+//@      && (forall k: str :: in_dom(s.matches, k) ==> map_get(s.matches, k) != nil && allocated(map_get(s.matches, k)) && len(map_get(s.matches, k).submatches) == n && allocated(map_get(s.matches, k).submatches))
+//@      && (forall a: str :: forall b: str :: in_dom(s.matches, a) && in_dom(s.matches, b) && a != b ==> map_get(s.matches, a) != map_get(s.matches, b) && ref(map_get(s.matches, a).submatches) != ref(map_get(s.matches, b).submatches))
 //@ pred wf_skrows(s) := wf_skrows_n(s, len(s.subKeys))
 //@ func NewSubKeyCounter
 //@   ensures wf_skidx(result) && wf_skrows(result) && len(result.subKeys) == 0 && (forall k: str :: !in_dom(result.matches, k))
 //@ func (*SubKeyCounter).getOrCreateSubkeyIndex
 //@   requires wf_skidx(s) && wf_skrows(s)
 //@   ensures wf_skidx(s)
+//@   ensures s.errors == old(s.errors)
 //@   ensures [position] 0 <= result && result < len(s.subKeys) && s.subKeys[result] == subkey
 //@   ensures [known] old(in_dom(s.subKeyIdx, subkey)) ==> len(s.subKeys) == old(len(s.subKeys)) && (forall i in [0, len(s.subKeys)) :: s.subKeys[i] == old(s.subKeys[i]))
 //@   ensures [inserted] !old(in_dom(s.subKeyIdx, subkey)) ==> len(s.subKeys) == old(len(s.subKeys)) + 1 && (forall i in [0, result) :: s.subKeys[i] == old(s.subKeys[i])) && (forall i in [result + 1, len(s.subKeys)) :: s.subKeys[i] == old(s.subKeys[i - 1]))
+//@   loop 1 invariant s.errors == old(s.errors)
+//@   loop 2 invariant s.errors == old(s.errors)
 //@   loop 1 invariant ref(rangeslice()) == ref(s.subKeys) && off(rangeslice()) == off(s.subKeys) && len(rangeslice()) == len(s.subKeys)
 //@   loop 1 invariant sorted_strict(s.subKeys) && s.subKeyIdx == old(s.subKeyIdx) && len(s.subKeys) == old(len(s.subKeys)) + 1 && 0 <= idx && idx < len(s.subKeys) && s.subKeys[idx] == subkey
 //@   loop 1 invariant (forall i in [0, idx) :: s.subKeys[i] == old(s.subKeys[i])) && (forall i in [idx + 1, len(s.subKeys)) :: s.subKeys[i] == old(s.subKeys[i - 1]))
@@ -240,3 +244,65 @@ package aggregation
 // a new sub-key shifts the positions of the ones sorted after it by one, and nothing else
 //@   ensures [shift] forall k: str :: old(in_dom(s.subKeyIdx, k)) ==> in_dom(s.subKeyIdx, k) && map_get(s.subKeyIdx, k) == old(map_get(s.subKeyIdx, k)) + (if !old(in_dom(s.subKeyIdx, subkey)) && old(map_get(s.subKeyIdx, k)) >= result then 1 else 0)
 //@   ensures [dom] forall k: str :: in_dom(s.subKeyIdx, k) == (old(in_dom(s.subKeyIdx, k)) || k == subkey)
+// the value shown for (row, sub-key): absent = 0
+//@ pred skcell(s, r, c) := if in_dom(s.matches, r) && in_dom(s.subKeyIdx, c) then map_get(s.matches, r).submatches[map_get(s.subKeyIdx, c)] else 0
+//@ pred skrow(s, r) := if in_dom(s.matches, r) then map_get(s.matches, r).count else 0
+// creating the index of a sub-key changes no cell (a new column is all zero) and no row
+//@   ensures [cells] forall r: str :: forall c: str :: skcell(s, r, c) == old(skcell(s, r, c))
+//@   ensures [rows-kept] s.matches == old(s.matches) && (forall r: str :: in_dom(s.matches, r) == old(in_dom(s.matches, r)) && skrow(s, r) == old(skrow(s, r)) && (in_dom(s.matches, r) ==> map_get(s.matches, r) == old(map_get(s.matches, r))))
+//@   loop 1 invariant s.matches == old(s.matches) && (forall r: str :: in_dom(s.matches, r) == old(in_dom(s.matches, r)) && (in_dom(s.matches, r) ==> map_get(s.matches, r) == old(map_get(s.matches, r)) && map_get(s.matches, r).count == old(map_get(s.matches, r).count) && ref(map_get(s.matches, r).submatches) == old(ref(map_get(s.matches, r).submatches)) && off(map_get(s.matches, r).submatches) == old(off(map_get(s.matches, r).submatches))))
+//@   loop 1 invariant forall r: str :: in_dom(s.matches, r) ==> (forall j in [0, len(s.subKeys) - 1) :: map_get(s.matches, r).submatches[j] == old(map_get(s.matches, r).submatches[j]))
+//@   loop 2 invariant s.matches == old(s.matches) && (forall r: str :: in_dom(s.matches, r) == old(in_dom(s.matches, r)) && (in_dom(s.matches, r) ==> map_get(s.matches, r) == old(map_get(s.matches, r)) && map_get(s.matches, r).count == old(map_get(s.matches, r).count)))
+//@   loop 2 invariant forall r: str :: in_dom(s.matches, r) && !visited_in(2, r) ==> ref(map_get(s.matches, r).submatches) == old(ref(map_get(s.matches, r).submatches)) && off(map_get(s.matches, r).submatches) == old(off(map_get(s.matches, r).submatches)) && (forall j in [0, len(s.subKeys) - 1) :: map_get(s.matches, r).submatches[j] == old(map_get(s.matches, r).submatches[j]))
+//@   loop 2 invariant forall a: str :: forall b: str :: in_dom(s.matches, a) && in_dom(s.matches, b) && a != b ==> ref(map_get(s.matches, a).submatches) != ref(map_get(s.matches, b).submatches)
+//@   loop 2 invariant forall r: str :: in_dom(s.matches, r) ==> allocated(map_get(s.matches, r).submatches)
+//@   loop 2 invariant forall r: str :: in_dom(s.matches, r) && visited_in(2, r) ==> map_get(s.matches, r).submatches[idx] == 0 && (forall j in [0, idx) :: map_get(s.matches, r).submatches[j] == old(map_get(s.matches, r).submatches[j])) && (forall j in [idx + 1, len(s.subKeys)) :: map_get(s.matches, r).submatches[j] == old(map_get(s.matches, r).submatches[j - 1]))
+//@ func (*SubKeyCounter).getOrCreateKeyItem
+//@   requires wf_skidx(s) && wf_skrows(s)
+//@   ensures wf_skidx(s) && wf_skrows(s)
+//@   ensures result != nil && in_dom(s.matches, key) && map_get(s.matches, key) == result && s.errors == old(s.errors)
+//@   ensures [cells] forall r: str :: forall c: str :: skcell(s, r, c) == old(skcell(s, r, c))
+//@   ensures [rows] forall r: str :: skrow(s, r) == old(skrow(s, r)) && in_dom(s.matches, r) == (old(in_dom(s.matches, r)) || r == key)
+//@   ensures [index-kept] s.subKeyIdx == old(s.subKeyIdx) && len(s.subKeys) == old(len(s.subKeys)) && (forall k: str :: in_dom(s.subKeyIdx, k) == old(in_dom(s.subKeyIdx, k)) && map_get(s.subKeyIdx, k) == old(map_get(s.subKeyIdx, k))) && (forall i in [0, len(s.subKeys)) :: s.subKeys[i] == old(s.subKeys[i]))
+// one sample adds count to exactly one (row, sub-key) cell and to that row's total; every other
+// cell keeps its value even when the new sub-key is inserted in front of existing ones
+//@ func (*SubKeyCounter).SampleValue
+//@   requires wf_skidx(s) && wf_skrows(s)
+//@   ensures wf_skidx(s) && wf_skrows(s) && s.errors == old(s.errors)
+//@   ensures [cell] fits(old(skcell(s, key, subkey)) + count) ==> forall r: str :: forall c: str :: skcell(s, r, c) == old(skcell(s, r, c)) + (if r == key && c == subkey then count else 0)
+//@   ensures [row-total] fits(old(skrow(s, key)) + count) ==> forall r: str :: skrow(s, r) == old(skrow(s, r)) + (if r == key then count else 0)
+//@   ensures [sub-keys] forall k: str :: in_dom(s.subKeyIdx, k) == (old(in_dom(s.subKeyIdx, k)) || k == subkey)
+//@   ensures [row-keys] forall r: str :: in_dom(s.matches, r) == (old(in_dom(s.matches, r)) || r == key)
+// Sample("row\x00sub\x00n"): fields split at the array separator; a missing sub-key is "", a
+// missing increment is 1, a non-integer increment is a parse error that changes no cell.
+//@ func (*SubKeyCounter).Sample
+//@   requires wf_skidx(s) && wf_skrows(s)
+//@   ensures wf_skidx(s) && wf_skrows(s)
+//@   assert at "sVal, hasVal := splitter.NextOk()" : key == tf0(element, "\x00") && (str_index(element, "\x00") >= 0 ==> subkey == tf1(element, "\x00")) && (str_index(element, "\x00") < 0 ==> subkey == "")
+//@   ensures [one-field] str_index(element, "\x00") < 0 && fits(old(skcell(s, element, "")) + 1) ==> (forall r: str :: forall c: str :: skcell(s, r, c) == old(skcell(s, r, c)) + (if r == element && c == "" then 1 else 0)) && s.errors == old(s.errors)
+//@   ensures [two-fields] str_index(element, "\x00") >= 0 && str_index(element[tn1(element, "\x00"):], "\x00") < 0 && fits(old(skcell(s, tf0(element, "\x00"), tf1(element, "\x00"))) + 1) ==> (forall r: str :: forall c: str :: skcell(s, r, c) == old(skcell(s, r, c)) + (if r == tf0(element, "\x00") && c == tf1(element, "\x00") then 1 else 0)) && s.errors == old(s.errors)
+//@   ensures [three-fields] str_index(element, "\x00") >= 0 && str_index(element[tn1(element, "\x00"):], "\x00") >= 0 && int_ok(tf2(element, "\x00")) && fits(old(skcell(s, tf0(element, "\x00"), tf1(element, "\x00"))) + atoi(tf2(element, "\x00"))) ==>
+//@              (forall r: str :: forall c: str :: skcell(s, r, c) == old(skcell(s, r, c)) + (if r == tf0(element, "\x00") && c == tf1(element, "\x00") then atoi(tf2(element, "\x00")) else 0)) && s.errors == old(s.errors)
+//@   ensures [parse-error] str_index(element, "\x00") >= 0 && str_index(element[tn1(element, "\x00"):], "\x00") >= 0 && !int_ok(tf2(element, "\x00")) && old(s.errors) < 18446744073709551615 ==>
+//@              (forall r: str :: forall c: str :: skcell(s, r, c) == old(skcell(s, r, c))) && s.errors == old(s.errors) + 1
+// accessors: the sub-key list is the sorted list itself; every returned item is a row of the
+// counter under its own name, with that row's total and value columns
+//@ func (*SubKeyCounter).SubKeys
+//@   pure
+//@   ensures ref(result) == ref(s.subKeys) && off(result) == off(s.subKeys) && len(result) == len(s.subKeys)
+//@ func (*SubKeyItem).Count
+//@   pure
+//@   ensures result == s.count
+//@ func (*SubKeyItem).Items
+//@   pure
+//@   ensures ref(result) == ref(s.submatches) && off(result) == off(s.submatches) && len(result) == len(s.submatches)
+//@ func (*SubKeyCounter).ParseErrors
+//@   pure
+//@   ensures result == s.errors
+//@ func (*SubKeyCounter).Items
+//@   requires wf_skrows(s)
+//@   pure
+//@   ensures fresh(result)
+//@   ensures [rows] forall i in [0, len(result)) :: in_dom(s.matches, result[i].Name) && result[i].Item.count == map_get(s.matches, result[i].Name).count && ref(result[i].Item.submatches) == ref(map_get(s.matches, result[i].Name).submatches) && off(result[i].Item.submatches) == off(map_get(s.matches, result[i].Name).submatches) && len(result[i].Item.submatches) == len(s.subKeys)
+//@   loop 1 invariant wf_skrows(s) && fresh(ret)
+//@   loop 1 invariant forall i in [0, len(ret)) :: in_dom(s.matches, ret[i].Name) && ret[i].Item.count == map_get(s.matches, ret[i].Name).count && ref(ret[i].Item.submatches) == ref(map_get(s.matches, ret[i].Name).submatches) && off(ret[i].Item.submatches) == off(map_get(s.matches, ret[i].Name).submatches) && len(ret[i].Item.submatches) == len(s.subKeys)
